@@ -78,6 +78,9 @@ pub enum Op {
     /// anybody registers a token the service deployed itself as a canonical token (a second id for the same contract;
     /// whatever the service answers, transfers under the first id must go on burning and minting)
     RegisterDeployedAsCanonical { slot: u8 },
+    /// the issuer of a canonical Stellar asset hands its admin role to the token service (before or after the asset is
+    /// registered): registered assets stay lock/unlock tokens, custody accounting goes on unchanged
+    IssuerHandsAdminToService { slot: u8 },
 }
 
 #[derive(Clone, Debug, Serialize, Deserialize)]
@@ -122,6 +125,7 @@ fn op() -> impl Strategy<Value = Op> {
         1 => (0u8..5, 0u8..3).prop_map(|(tok, origin)| Op::InDeployForKnownToken { tok, origin }),
         1 => Just(Op::UpgradeAndMigrate),
         1 => (0u8..2).prop_map(|slot| Op::RegisterDeployedAsCanonical { slot }),
+        1 => (0u8..2).prop_map(|slot| Op::IssuerHandsAdminToService { slot }),
     ]
 }
 
@@ -151,12 +155,20 @@ impl Property for C05 {
     }
     fn strategy(&self, tier: Tier) -> BoxedStrategy<Case> {
         let direct: BoxedStrategy<Case> = {
-        (prop_oneof![1 => Just(0u8), 2 => Just(1u8), 4 => Just(2u8)], proptest::collection::vec(op(), 1..=tier.pick(25usize, 45usize)))
+        (prop_oneof![1 => Just(0u8), 2 => Just(1u8), 4 => Just(2u8), 2 => Just(3u8)], proptest::collection::vec(op(), 1..=tier.pick(25usize, 45usize)))
             .prop_map(|(start, mut ops)| {
                 // most histories start with a usable world (the prefix is part of the case and shrinks with it)
                 let mut pre = match start {
                     0 => vec![],
                     1 => vec![Op::Trust(0), Op::Deploy { slot: 0, cfg: NCfg::Supply1000NoMinter }, Op::Register { slot: 0 }],
+                    3 => vec![
+                        Op::Trust(0),
+                        Op::Trust(1),
+                        Op::IssuerHandsAdminToService { slot: 1 },
+                        Op::Register { slot: 0 },
+                        Op::Register { slot: 1 },
+                        Op::Out { user: 1, tok: 3, chain: 1, amount: Amt::Small(40), data: None, gas: GasA::One },
+                    ],
                     _ => vec![
                         Op::Trust(0),
                         Op::Trust(1),
@@ -298,6 +310,13 @@ impl Property for C05 {
                     let id = w.its.client.register_canonical_token(&assets[s]).to_array();
                     bal[2 + s] = asset_bal[s];
                     toks[2 + s] = Some(Tok { id, addr: assets[s].clone(), native: false, minter: None });
+                }
+                Op::IssuerHandsAdminToService { slot } => {
+                    let s = *slot as usize % 2;
+                    env.mock_all_auths();
+                    soroban_sdk::token::StellarAssetClient::new(env, &assets[s]).set_admin(&w.its.id);
+                    cx.label(if toks[2 + s].is_some() { "asset_admin_handed_to_service_after_registration" } else { "asset_admin_handed_to_service_before_registration" });
+                    env.mock_all_auths_allowing_non_root_auth();
                 }
                 Op::RegisterDeployedAsCanonical { slot } => {
                     if let Some(t) = &toks[*slot as usize % 2] {
